@@ -113,20 +113,21 @@ Definition nonempty_entry {A} (k : bytes) (f : list A -> bvalue) (l : list A) : 
   match l with [] => [] | _ => [(k, f l)] end.
 
 (* arguments of a query: BEP 5 (ping, find_node, get_peers, announce_peer), BEP 32 (want) *)
-Definition args_tree (r : request) : bvalue :=
+Definition args_entries (r : request) : list (bytes * bvalue) :=
   match r with
-  | Ping id => BDict [(k_id, BStr (enc_id id))]
+  | Ping id => [(k_id, BStr (enc_id id))]
   | FindNode id tg w =>
-      BDict ([(k_id, BStr (enc_id id)); (k_target, BStr (enc_id tg))] ++ opt_entry k_want want_tree w)
+      [(k_id, BStr (enc_id id)); (k_target, BStr (enc_id tg))] ++ opt_entry k_want want_tree w
   | GetPeers id ih w =>
-      BDict ([(k_id, BStr (enc_id id)); (k_info_hash, BStr (enc_id ih))] ++ opt_entry k_want want_tree w)
+      [(k_id, BStr (enc_id id)); (k_info_hash, BStr (enc_id ih))] ++ opt_entry k_want want_tree w
   | AnnouncePeer id ih p tk =>
-      BDict ([(k_id, BStr (enc_id id))]
-             ++ (match p with None => [(k_implied_port, BInt 1)] | Some _ => [] end)
-             ++ [(k_info_hash, BStr (enc_id ih));
-                 (k_port, BInt (Z.of_N (match p with Some x => x | None => 0 end)));
-                 (k_token, BStr tk)])
+      [(k_id, BStr (enc_id id))]
+      ++ (match p with None => [(k_implied_port, BInt 1)] | Some _ => [] end)
+      ++ [(k_info_hash, BStr (enc_id ih));
+          (k_port, BInt (Z.of_N (match p with Some x => x | None => 0 end)));
+          (k_token, BStr tk)]
   end.
+Definition args_tree (r : request) : bvalue := BDict (args_entries r).
 
 Definition method_name (r : request) : bytes :=
   match r with
@@ -137,18 +138,40 @@ Definition method_name (r : request) : bytes :=
   end.
 
 (* return values: id, then (when non-empty / present) nodes, nodes6, token, values *)
-Definition resp_tree (r : response) : bvalue :=
-  BDict ([(k_id, BStr (enc_id (r_id r)))]
-         ++ nonempty_entry k_nodes (fun l => BStr (cat_nodes l)) (r_nodes4 r)
-         ++ nonempty_entry k_nodes6 (fun l => BStr (cat_nodes l)) (r_nodes6 r)
-         ++ opt_entry k_token BStr (r_token r)
-         ++ nonempty_entry k_values (fun l => BList (map (fun a => BStr (enc_addr a)) l)) (r_values r)).
+Definition resp_entries (r : response) : list (bytes * bvalue) :=
+  [(k_id, BStr (enc_id (r_id r)))]
+  ++ nonempty_entry k_nodes (fun l => BStr (cat_nodes l)) (r_nodes4 r)
+  ++ nonempty_entry k_nodes6 (fun l => BStr (cat_nodes l)) (r_nodes6 r)
+  ++ opt_entry k_token BStr (r_token r)
+  ++ nonempty_entry k_values (fun l => BList (map (fun a => BStr (enc_addr a)) l)) (r_values r).
+Definition resp_tree (r : response) : bvalue := BDict (resp_entries r).
 
-Definition tree_of_msg (m : msg) : bvalue :=
+(* the top-level dictionary, given the tree of the body *)
+Definition top_entries (tid : bytes) (b : body) (sub : bvalue) : list (bytes * bvalue) :=
+  match b with
+  | Req r => [(k_a, sub); (k_q, BStr (method_name r)); (k_t, BStr tid); (k_y, BStr k_q)]
+  | Resp _ => [(k_r, sub); (k_t, BStr tid); (k_y, BStr k_r)]
+  | Err _ _ => [(k_e, sub); (k_t, BStr tid); (k_y, BStr k_e)]
+  end.
+
+Definition body_tree (b : body) : bvalue :=
+  match b with
+  | Req r => args_tree r
+  | Resp r => resp_tree r
+  | Err c t => BList [BInt (Z.of_N c); BStr t]
+  end.
+
+Definition tree_of_msg (m : msg) : bvalue := BDict (top_entries (m_tid m) (m_body m) (body_tree (m_body m))).
+
+(* byte strings short enough for a length prefix (any Rust Vec is): tid, token, text, node strings *)
+Definition msg_small (m : msg) : bool :=
+  (N.of_nat (length (m_tid m)) <? 2 ^ 64) &&
   match m_body m with
-  | Req r => BDict [(k_a, args_tree r); (k_q, BStr (method_name r)); (k_t, BStr (m_tid m)); (k_y, BStr k_q)]
-  | Resp r => BDict [(k_r, resp_tree r); (k_t, BStr (m_tid m)); (k_y, BStr k_r)]
-  | Err c t => BDict [(k_e, BList [BInt (Z.of_N c); BStr t]); (k_t, BStr (m_tid m)); (k_y, BStr k_e)]
+  | Req (AnnouncePeer _ _ _ tk) => N.of_nat (length tk) <? 2 ^ 64
+  | Req _ => true
+  | Resp r => (N.of_nat (length (r_nodes4 r)) <? 2 ^ 58) && (N.of_nat (length (r_nodes6 r)) <? 2 ^ 58)
+              && (match r_token r with Some tk => N.of_nat (length tk) <? 2 ^ 64 | None => true end)
+  | Err _ t => N.of_nat (length t) <? 2 ^ 64
   end.
 
 (* ---------------------------------------------------------------- Message::encode *)
